@@ -264,9 +264,10 @@ func (vr *variableResolver) resolve(ctx *ExecutionContext) (*Value, error) {
 			}
 		}
 
+		// The array is not a safe value: its items (e.g. strings from the
+		// context) still have to be escaped when they are printed.
 		return &Value{
-			val:  reflect.ValueOf(items),
-			safe: true,
+			val: reflect.ValueOf(items),
 		}, nil
 	}
 
